@@ -3,6 +3,7 @@ package headers
 import (
 	"errors"
 	"fmt"
+	"math"
 	"strconv"
 	"strings"
 )
@@ -44,7 +45,13 @@ func parseRangeNumber(numStr string) (num int64, endIndex int64, ok bool) {
 			return num, index, true
 		}
 
-		num = num*10 + int64(ch-'0')
+		if num > (math.MaxInt64-int64(ch-'0'))/10 {
+			// Saturate instead of wrapping around: a number this large is beyond any representation
+			// size, and must not turn into a small (and satisfiable) one.
+			num = math.MaxInt64
+		} else {
+			num = num*10 + int64(ch-'0')
+		}
 		index++
 	}
 
@@ -71,6 +78,10 @@ func parseRangeHeader(rangeStr string) (rangeHeader, error) {
 		return rangeHeader{}, ErrInvalidRangeUnit
 	}
 
+	if valuesStr == "" {
+		return rangeHeader{}, ErrInvalidRangeValue
+	}
+
 	firstCh := valuesStr[0]
 	if firstCh == '-' {
 		// Suffix range: last N bytes
@@ -94,6 +105,11 @@ func parseRangeHeader(rangeStr string) (rangeHeader, error) {
 	start, startTail, ok := parseRangeNumber(valuesStr)
 	if !ok {
 		return rangeHeader{}, ErrInvalidRangeValue
+	}
+
+	if startTail >= int64(len(valuesStr)) {
+		// Only a number, no '-' ("bytes=5")
+		return rangeHeader{}, ErrInvalidRangeFormat
 	}
 
 	middleCh := valuesStr[startTail]
